@@ -7,6 +7,7 @@ import SedpackDriver.Tree
 import SedpackDriver.Crash
 import SedpackDriver.Select
 import SedpackDriver.Path
+import SedpackDriver.Version
 open Lean
 namespace Sedpack.Drv
 
@@ -23,6 +24,8 @@ def dispatch (m : String) (j : Json) : Except String Json :=
   | "crash" => crash j
   | "select" => selectJ j
   | "path" => pathJ j
+  | "ver" => verJ j
+  | "defaults" => defaultsJ j
   | _ => .error s!"unknown model {m}"
 
 end Sedpack.Drv
